@@ -43,6 +43,16 @@ fn big_list(seed: u64, idx: usize) -> Vec<String> {
             v.push(format!("site{}.com#@#.sp{}", i, j));
             v.push(format!("##div[data-x=\"{}\"]", i));
         }
+        if i % 8 == 0 {
+            // a fusion group (one shared token, same options) in which one normalised pattern
+            // occurs twice — spelled in two letter cases and once more verbatim — next to others
+            v.push(format!("/FuseGrp{}/img", i));
+            v.push(format!("/fusegrp{}/img", i));
+            v.push(format!("/fusegrp{}/top", i));
+            v.push(format!("/fusegrp{}/side", i));
+            v.push(format!("/fusegrp{}/foot{}", i, j));
+            v.push(format!("/fusegrp{}/top", i));
+        }
         if i % 4 == 0 {
             v.push(format!("||tag{}.com^$tag={}", i, r.pick(gen::TAGS)));
             v.push(format!("||csp{}.com^$csp=img-src x{}", i, j));
@@ -201,7 +211,7 @@ fn main() {
     let mut r = Rng::new(a.seed);
     let mut cs = Cases::new(&a.out, "Generated Wire_Model C09_Model");
     cs.shard = 40;
-    sm.rule = "correspondence: small random engines (6-30 rules: every network shape of gen::rule plus tags, redirects, csp, generichide, regex; cosmetic generic/specific/procedural/scriptlet/exception rules), debug and optimize on/off, tags on/off, fresh and reloaded; the model state is printed from the dump hooks with every hash container shuffled; non-trivial = the engine has at least 3 non-empty containers. Oracle: big lists (about 5000-7000 rules: grammar rules, numbered synthetic rules for every container, two 1500-line slices of the real EasyList) in process and in child processes".into();
+    sm.rule = "correspondence: small random engines (6-30 rules: every network shape of gen::rule plus tags, redirects, csp, generichide, regex; cosmetic generic/specific/procedural/scriptlet/exception rules), debug and optimize on/off, tags on/off, fresh and reloaded; the model state is printed from the dump hooks with every hash container shuffled; non-trivial = the engine has at least 3 non-empty containers. Oracle: big lists (about 5000-7000 rules: grammar rules, numbered synthetic rules for every container, fusion groups in which one normalised pattern occurs twice (two letter cases, verbatim repeats), two 1500-line slices of the real EasyList) in process and in child processes".into();
 
     // ---- oracle on big lists: in process, child processes, fixpoint
     let n_big = 3 * a.scale.min(4);
